@@ -14,17 +14,23 @@ structure Req where
 
 def zeros (n : Nat) : ByteArray := ⟨Array.replicate n 0⟩
 
-/-- effect of one request on the host file -/
-def apply (b : ByteArray) (r : Req) : ByteArray :=
+/-- effect of one request on the host file (byte-wise, in place when the array
+    is not shared) -/
+def apply (b : ByteArray) (r : Req) : ByteArray := Id.run do
   match r.data with
   | some d =>
-    if d.size = 0 then b else
-    let b := if r.off + d.size > b.size then b ++ zeros (r.off + d.size - b.size) else b
-    ByteArray.copySlice ⟨d⟩ 0 b r.off d.size
+    if d.size = 0 then return b
+    let mut out := if r.off + d.size > b.size then b ++ zeros (r.off + d.size - b.size) else b
+    for i in [0:d.size] do
+      out := out.set! (r.off + i) d[i]!
+    return out
   | none =>
-    if r.off ≥ b.size then b else
+    if r.off ≥ b.size then return b
     let n := min r.len (b.size - r.off)
-    ByteArray.copySlice (zeros n) 0 b r.off n
+    let mut out := b
+    for i in [0:n] do
+      out := out.set! (r.off + i) 0
+    return out
 
 /-- index subsets (ascending) explored at a crash point with `n` pending
     requests; every subset contains the newest request `n-1` (subsets without
